@@ -89,63 +89,51 @@ theorem continual_antitone (c : Cfg) (s : St) (obs : Nat → Obs) (n m : Nat) (h
     ((run (rtbStep c) s obs m).cont = true → (run (rtbStep c) s obs n).cont = true) :=
   ⟨run_cont_mono (sop_isCtl c) s obs n m hnm, run_cont_mono (rtb_isCtl c) s obs n m hnm⟩
 
-/-! ## clause 3: `reset`
+/-! ## clause 3: `reset` restores the initial state
 
-`StopOnPlateau` has no `reset`.  `_Stepper.reset` restores `steps`, `_continual` and `last` but
-**not** `patience_count` (the code as it is; see notes/C20.md, GENUINE DEFECT).  So the clause "reset
-restores the initial state" is false for the model of the code (`rtb_reset_not_initial`); what does hold
-is stated at full strength below. -/
+`_Stepper.reset` (ReduceToBason).  `StopOnPlateau` / `_Scheduler` has **no** `reset` in /repo: for it the
+"until reset" part of the clause has no implementation and "once false it stays false" holds unconditionally
+(`sop_absorbing`, `optimize_stopped_noop`). -/
 
-/-- what `reset` restores: everything except `patience_count` -/
-theorem rtb_reset_initial_partial (s : St) (l : Option (List ℝ)) :
-    rtbReset s = { St.init with pc := s.pc } ∧
-    rtbResetNum (⟨s, l⟩ : RtbSt ℝ) = ⟨{ St.init with pc := s.pc }, none⟩ := ⟨rfl, rfl⟩
+/-- **`reset` restores the initial state**, from every state whatsoever (stopped or not, any counters):
+abstract state = constructor state, numeric state (`last = inf`) = constructor state. -/
+theorem rtb_reset_initial (s : St) (l : Option (List ℝ)) :
+    rtbReset s = St.init ∧ rtbResetNum (⟨s, l⟩ : RtbSt ℝ) = RtbSt.init := ⟨rfl, rfl⟩
 
-/-- `reset` does restore the initial state whenever `patience_count` happens to be 0. -/
-theorem rtb_reset_initial_of_pc_zero (s : St) (h : s.pc = 0) : rtbReset s = St.init := by
-  cases s; simp_all [rtbReset, St.init]
+/-- Hence after `reset` every future — all counters and the flag after every number of steps, for every
+observation sequence — is that of a freshly constructed controller; in particular `continual()` is true
+again and the documented characterisation `rtb_continual_iff` applies to the steps after the reset. -/
+theorem rtb_reset_run_eq_fresh (c : Cfg) (s : St) (obs : Nat → Obs) (n : Nat) :
+    run (rtbStep c) (rtbReset s) obs n = run (rtbStep c) St.init obs n ∧
+    ((run (rtbStep c) (rtbReset s) obs n).cont = true ↔ ∀ i, i < n → ¬ rtbCause c obs i) :=
+  ⟨rfl, rtb_continual_iff c obs n⟩
 
-/-- After `reset`, `continual()` is true again, whatever the state was. -/
-theorem rtb_reset_continual (s : St) : (rtbReset s).cont = true ∧ (rtbReset s).steps = 0 := ⟨rfl, rfl⟩
+/-- numeric version: `reset` then any real-valued batched loss history = the fresh numeric run -/
+theorem rtbNum_reset_eq_fresh (c : Cfg) (d tol : ℝ) (s : RtbSt ℝ) (loss : Nat → List ℝ) (n : Nat) :
+    rtbRunNum c d tol (rtbResetNum s) loss n = rtbRunNum c d tol RtbSt.init loss n := rfl
 
-/-- If the first step after `reset` is not a non-decrease, the whole future (all counters and the flag,
-after every number `n ≥ 1` of steps) coincides with that of a freshly constructed controller. -/
-theorem rtb_reset_run_eq_fresh (c : Cfg) (s : St) (obs : Nat → Obs) (h0 : (obs 0).nodec = false)
-    (n : Nat) (hn : 1 ≤ n) :
-    run (rtbStep c) (rtbReset s) obs n = run (rtbStep c) St.init obs n := by
-  induction n with
-  | zero => omega
-  | succ n ih =>
-    cases n with
-    | zero => simp [run, rtbStep, rtbReset, St.init, h0]
-    | succ n => simp only [run] at ih ⊢; rw [ih (by omega)]
+/-- Until `reset` nothing re-arms a stopped stepper, and `reset` is the only event that does: over any
+history of `step`/`reset` events, the flag after an event is true only if the event is a `reset` or the
+flag was true before it. -/
+theorem rtb_only_reset_rearms (c : Cfg) (d tol : ℝ) (s : RtbSt ℝ) (e : Ev ℝ)
+    (h : (rtbEv c d tol s e).st.cont = true) : e = Ev.reset ∨ s.st.cont = true := by
+  cases e with
+  | reset => exact Or.inl rfl
+  | step loss =>
+    right
+    simp only [rtbEv, rtbStepNum] at h
+    exact ((rtb_isCtl c).cont s.st _).mp h |>.1
 
-/-- Exact behaviour after `reset` from any state: the stale `patience_count = s.pc` takes part in the
-patience test until the first decreasing step. -/
-theorem rtb_reset_continual_iff (c : Cfg) (s : St) (obs : Nat → Obs) (n : Nat) :
-    (run (rtbStep c) (rtbReset s) obs n).cont = true ↔
-      ∀ i, i < n → (¬ budgetCause c i ∧
-        ¬ c.patience ≤ (((if trail obs (i+1) = i+1 then s.pc + (i+1) else trail obs (i+1)) : Nat) : Int) ∧
-        (obs i).below = false) := by
-  rw [run_cont (rtb_isCtl c)]
-  simp only [rtbReset, true_and, Nat.zero_add, budgetCause, pcFrom_eq]
-
-/-- **The clause "reset restores the initial state" fails for the code as written**: a controller that
-stopped on patience and was reset stops at once on a first non-decreasing step, a fresh one does not. -/
-theorem rtb_reset_not_initial :
+/-- HISTORICAL NOTE (defect D31, repaired): the original `reset` kept `patience_count`; for it the clause
+was false — a stepper that stopped on patience and was reset stopped at once on a first non-decreasing
+step while a fresh one did not. Kept as the record of why the clause needed the repair. -/
+theorem rtb_reset_old_not_initial :
     ∃ (c : Cfg) (obs : Nat → Obs) (k n : Nat),
       (run (rtbStep c) St.init obs k).cont = false ∧
-      rtbReset (run (rtbStep c) St.init obs k) ≠ St.init ∧
-      (run (rtbStep c) (rtbReset (run (rtbStep c) St.init obs k)) obs n).cont = false ∧
+      rtbResetOld (run (rtbStep c) St.init obs k) ≠ St.init ∧
+      (run (rtbStep c) (rtbResetOld (run (rtbStep c) St.init obs k)) obs n).cont = false ∧
       (run (rtbStep c) St.init obs n).cont = true :=
   ⟨⟨10, 2⟩, fun _ => ⟨true, false, false⟩, 2, 1, by decide⟩
-
-/-- For the **repaired** `reset` (`rtbResetFixed`, which also clears `patience_count`) the clause holds at
-full strength: the state is the constructor state, hence every future run coincides with a fresh one. -/
-theorem rtb_reset_fixed_initial (c : Cfg) (s : St) (obs : Nat → Obs) (n : Nat) :
-    rtbResetFixed s = St.init ∧
-    run (rtbStep c) (rtbResetFixed s) obs n = run (rtbStep c) St.init obs n ∧
-    rtbReset { s with pc := 0 } = rtbResetFixed s := ⟨rfl, rfl, rfl⟩
 
 /-! ## clause 4: every driver loop ends after at most `steps` controller steps -/
 
@@ -220,16 +208,16 @@ theorem mpc_bounded (c0 : Cfg) (k : Nat) (hk : 1 ≤ k) (s : St) (obs : Nat → 
   simp only [rtbReset, hcfg] at hle
   exact ⟨this, by omega, fun _ => by omega, by simp, hf⟩
 
-/-- `ICP.forward` / `MPC.forward` entered with `patience_count = 0` (first use, or any use once `reset` is
-repaired): the number of controller steps is exactly the index of the first documented cause of a fresh
-controller (budget `steps` for ICP, `steps - k` for MPC). -/
-theorem icp_mpc_count_first_cause (c : Cfg) (k : Nat) (s : St) (hpc : s.pc = 0) (obs : Nat → Obs) :
+/-- `ICP.forward` / `MPC.forward`, whatever state the stepper is in on entry (first call, later call, shared
+stepper): the number of controller steps is exactly the index of the first documented cause of a fresh
+controller (budget `steps` for ICP, `steps - k` for an MPC built `k` times on the stepper). -/
+theorem icp_mpc_count_first_cause (c : Cfg) (k : Nat) (s : St) (obs : Nat → Obs) :
     (1 ≤ (icpForward c s obs).1 ∧ rtbCause c obs ((icpForward c s obs).1 - 1) ∧
       ∀ i, i + 1 < (icpForward c s obs).1 → ¬ rtbCause c obs i) ∧
     (1 ≤ (mpcForward (mpcInitN k c) s obs).1 ∧
       rtbCause (mpcInitN k c) obs ((mpcForward (mpcInitN k c) s obs).1 - 1) ∧
       ∀ i, i + 1 < (mpcForward (mpcInitN k c) s obs).1 → ¬ rtbCause (mpcInitN k c) obs i) := by
-  have hr : rtbReset s = St.init := rtb_reset_initial_of_pc_zero s hpc
+  have hr : rtbReset s = St.init := rfl
   unfold icpForward mpcForward
   simp only [hr]
   exact ⟨loop_init_first_cause (rtb_isCtl c) obs, loop_init_first_cause (rtb_isCtl (mpcInitN k c)) obs⟩
@@ -331,9 +319,8 @@ theorem sopNum_continual_iff (c : Cfg) (d : ℝ) (o : Nat → OptObs ℝ) (n : N
     · exact Or.inr (Or.inl ⟨m, hp, hm, fun j h1 h2 => (hnd j).mp (hall j h1 h2)⟩)
     · exact Or.inr (Or.inr ((hrj i).mp h3))
 
-/-- On the first step after `reset` (or construction) a batch containing a non-negative loss never counts
-as a non-decrease, so by `rtb_reset_run_eq_fresh` a reset stepper then behaves exactly like a fresh one.
-(For a batch of only negative losses it does count — that is where the stale `patience_count` shows.) -/
+/-- On the first step after `reset` (or construction) `last = +inf`: a batch containing a non-negative loss
+never counts as a non-decrease; a batch of only negative losses does (`(inf - x)/x = -inf`). -/
 theorem rtbNum_first_step_nodec (d tol : ℝ) (loss : List ℝ) :
     ((∃ x ∈ loss, 0 ≤ x) → (rtbObs d tol none loss).nodec = false) ∧
     ((∀ x ∈ loss, x < 0) → (rtbObs d tol none loss).nodec = true) := by
@@ -341,27 +328,6 @@ theorem rtbNum_first_step_nodec (d tol : ℝ) (loss : List ℝ) :
   simp only [rtbObs, relNoDec, List.all_eq_true]
   intro x hx
   exact (relNoDec1_none d x).mpr (h x hx)
-
-/-- numeric reset + steps = fresh numeric run, for every loss sequence whose first batch contains a
-non-negative loss (all `n ≥ 1`) -/
-theorem rtbNum_reset_eq_fresh (c : Cfg) (d tol : ℝ) (s : RtbSt ℝ) (loss : Nat → List ℝ)
-    (h0 : ∃ x ∈ loss 0, 0 ≤ x) (n : Nat) (hn : 1 ≤ n) :
-    rtbRunNum c d tol (rtbResetNum s) loss n = rtbRunNum c d tol RtbSt.init loss n := by
-  have hst : (rtbRunNum c d tol (rtbResetNum s) loss n).st = (rtbRunNum c d tol RtbSt.init loss n).st := by
-    rw [rtbRunNum_st, rtbRunNum_st]
-    simp only [rtbResetNum, RtbSt.init]
-    apply rtb_reset_run_eq_fresh c s.st _ _ n hn
-    simp only [numObs, rtbObs]
-    exact relNoDec_none_of_nonneg d (loss 0) h0
-  have hl : (rtbRunNum c d tol (rtbResetNum s) loss n).last = (rtbRunNum c d tol RtbSt.init loss n).last := by
-    rw [rtbRunNum_last, rtbRunNum_last]
-    cases n with
-    | zero => omega
-    | succ n => rfl
-  cases h1 : rtbRunNum c d tol (rtbResetNum s) loss n
-  cases h2 : rtbRunNum c d tol RtbSt.init loss n
-  simp only [h1, h2] at hst hl
-  rw [hst, hl]
 
 /-! ## what the driver executes is the model the theorems are about -/
 
@@ -397,8 +363,8 @@ example : (List.range 4).map (fun n => (run (rtbStep ⟨6, 2⟩) St.init
 -- driver loops
 example : (optimize ⟨6, 2⟩ St.init (fun _ => ⟨false, false, false⟩)).1 = 6 := by decide
 example : (icpForward ⟨200, 5⟩ ⟨17, 0, false⟩ (fun i => ⟨decide (2 ≤ i), false, false⟩)).1 = 7 := by decide
--- a second `forward` on a stepper whose `patience_count` is stale (3): 2 steps instead of 5
-example : (icpForward ⟨200, 5⟩ ⟨17, 3, false⟩ (fun _ => ⟨true, false, false⟩)).1 = 2 ∧
+-- a second `forward` on a used, stopped stepper behaves like the first
+example : (icpForward ⟨200, 5⟩ ⟨17, 3, false⟩ (fun _ => ⟨true, false, false⟩)).1 = 5 ∧
     (icpForward ⟨200, 5⟩ St.init (fun _ => ⟨true, false, false⟩)).1 = 5 := by decide
 example : (mpcForward (mpcInit ⟨10, 5⟩) St.init (fun _ => ⟨false, false, false⟩)).2.1 = 10 := by decide
 -- hypotheses of `rtbNum_continual_iff_pos` are satisfiable by a non-trivial batched sequence
